@@ -170,6 +170,12 @@ def run(ctx):
                         problems.append("%s is no longer confined by the condition that makes it a no-op on strict-accepted input (%s)" % (desc, rows_[0]["why"]))
                         continue
                 if desc.startswith("assignment to variable"):
+                    # a boolean constant stored in a local is a flag being built (`let check = strict && v4;`
+                    # lowers to `check = false` on the permissive side), not a change of what the file means
+                    if node[0] == "s":
+                        st_ = f.blocks[node[1]]["stmts"][node[2]]
+                        if st_["s"] == "assign" and not st_["place"]["proj"] and f.locals[st_["place"]["local"]]["s"] == "bool" and st_["rv"]["r"] == "use" and st_["rv"]["op"]["k"] == "const":
+                            continue
                     # class N: canonicalising assignment after a strict refusal, inside a deviation test
                     g_ = guards(ctx, f)
                     at_ = g_.atoms_at(("t", bb))
